@@ -85,6 +85,15 @@ func (tc *TypeConverter) AddImport(path, desiredName string) string {
 	return desiredName
 }
 
+// Qualifier adds an import like AddImport and returns the identifier that refers to it in
+// generated code. The identifier is final: CollectExprImports does not look it up in a source
+// file's imports, where the same name may stand for another package.
+func (tc *TypeConverter) Qualifier(path, desiredName string) *ast.Ident {
+	qualifier := ast.NewIdent(tc.AddImport(path, desiredName))
+	tc.qualifiers[qualifier] = struct{}{}
+	return qualifier
+}
+
 // CollectExprImports walks an AST expression and collects package references.
 // It uses sourceImports to map package names to import paths.
 // It also renames package references in the expression if there are name collisions.
@@ -222,10 +231,8 @@ func (tc *TypeConverter) typeNameToExpr(obj *types.TypeName, typeArgs *types.Typ
 	// obj.Pkg() is nil for built-in types (e.g., error)
 	if obj.Pkg() != nil && tc.currentPkg != nil && obj.Pkg() != tc.currentPkg {
 		// External package - add import and generate SelectorExpr
-		qualifier := ast.NewIdent(tc.AddImport(obj.Pkg().Path(), obj.Pkg().Name()))
-		tc.qualifiers[qualifier] = struct{}{}
 		expr = &ast.SelectorExpr{
-			X:   qualifier,
+			X:   tc.Qualifier(obj.Pkg().Path(), obj.Pkg().Name()),
 			Sel: ast.NewIdent(obj.Name()),
 		}
 	}
